@@ -15,7 +15,13 @@ ASSUMPTIONS = ["round trip compared to 8 significant digits, as the property sta
 
 def cls_measure_z(f):
     """measure_z is in the default measure set and is written, but libqasm 0.6.7 has no such instruction"""
-    return "measure_z" in f["detail"] and any(s[0] == "measure_z" for s in f["case"]["specs"])
+    # only the parser's refusal of the instruction itself: the error must point at the token measure_z, and it must be
+    # the FIRST thing the parser objects to (another defect in the same text would be reported at an earlier position
+    # or with another message)
+    d = f["detail"]
+    return d.startswith("written text rejected by the parser") and "at 'measure_z'" in d.split("\n")[0] and \
+        d.split("\n")[0].count("Error at") == 1 and \
+        any(s[0] == "measure_z" for s in f["case"]["specs"])
 
 
 CLASSIFIERS = {"measure_z_not_in_libqasm": cls_measure_z}
